@@ -757,7 +757,7 @@ def phi_4D_admix_into_4(phi, f1,f2,f3, xx,yy,zz,aa):
     Returns:
         phi (array): The updated phi array.
     """
-    Demes.cache.append(Demes.Pulse(sources=[1,2,3], dest=1, proportions=[f1, f2, f3]))
+    Demes.cache.append(Demes.Pulse(sources=[1,2,3], dest=4, proportions=[f1, f2, f3]))
     lower_w_index, upper_w_index, frac_lower, frac_upper, norm \
             = _four_pop_admixture_intermediates(phi, f1,f2,f3, xx,yy,zz,aa, yy)
 
@@ -882,6 +882,7 @@ def phi_5D_admix_into_1(phi, f2,f3,f4,f5, xx,yy,zz,aa,bb):
     if f2 + f3 + f4 + f5 > 1:
         raise ValueError('Admixture proportions (f2=%f, f3=%f, f4=%f, f5=%f) are '
                          'non-sensible.' % (f2, f3, f4, f5))
+    Demes.cache.append(Demes.Pulse(sources=[2,3,4,5], dest=1, proportions=[f2,f3,f4,f5]))
     lower_w_index, upper_w_index, frac_lower, frac_upper, norm \
             = _five_pop_admixture_intermediates(phi, 1-f2-f3-f4-f5,f2,f3,f4, xx,yy,zz,aa,bb, xx)
 
@@ -925,6 +926,7 @@ def phi_5D_admix_into_2(phi, f1,f3,f4,f5, xx,yy,zz,aa,bb):
     if f1 + f3 + f4 + f5 > 1:
         raise ValueError('Admixture proportions (f1=%f, f3=%f, f4=%f, f5=%f) are '
                          'non-sensible.' % (f1, f3, f4, f5))
+    Demes.cache.append(Demes.Pulse(sources=[1,3,4,5], dest=2, proportions=[f1,f3,f4,f5]))
     lower_w_index, upper_w_index, frac_lower, frac_upper, norm \
             = _five_pop_admixture_intermediates(phi, f1, 1-f1-f3-f4-f5,f3,f4, xx,yy,zz,aa,bb, xx)
 
@@ -968,6 +970,7 @@ def phi_5D_admix_into_3(phi, f1,f2,f4,f5, xx,yy,zz,aa,bb):
     if f1 + f2 + f4 + f5 > 1:
         raise ValueError('Admixture proportions (f1=%f, f2=%f, f4=%f, f5=%f) are '
                          'non-sensible.' % (f1, f2, f4, f5))
+    Demes.cache.append(Demes.Pulse(sources=[1,2,4,5], dest=3, proportions=[f1,f2,f4,f5]))
     lower_w_index, upper_w_index, frac_lower, frac_upper, norm \
             = _five_pop_admixture_intermediates(phi, f1, f2, 1-f1-f2-f4-f5,f4, xx,yy,zz,aa,bb, xx)
 
@@ -1011,6 +1014,7 @@ def phi_5D_admix_into_4(phi, f1,f2,f3,f5, xx,yy,zz,aa,bb):
     if f1 + f2 + f3 + f5 > 1:
         raise ValueError('Admixture proportions (f1=%f, f2=%f, f3=%f, f5=%f) are '
                          'non-sensible.' % (f1, f2, f3, f5))
+    Demes.cache.append(Demes.Pulse(sources=[1,2,3,5], dest=4, proportions=[f1,f2,f3,f5]))
     lower_w_index, upper_w_index, frac_lower, frac_upper, norm \
             = _five_pop_admixture_intermediates(phi, f1, f2, f3, 1-f1-f2-f3-f5, xx,yy,zz,aa,bb, xx)
 
@@ -1051,6 +1055,7 @@ def phi_5D_admix_into_5(phi, f1,f2,f3,f4, xx,yy,zz,aa,bb):
     Returns:
         phi (array): The updated phi array.
     """
+    Demes.cache.append(Demes.Pulse(sources=[1,2,3,4], dest=5, proportions=[f1,f2,f3,f4]))
     lower_w_index, upper_w_index, frac_lower, frac_upper, norm \
             = _five_pop_admixture_intermediates(phi, f1, f2, f3, f4, xx,yy,zz,aa,bb, xx)
 
